@@ -41,7 +41,7 @@ class DenseTimeInterpreter(TimeInterpreter):
                 b_unit = self.ast.unit
                 e_unit = self.ast.unit
 
-        b = b * (self.ast.U[self.ast.unit] / self.ast.U[b_unit])
-        e = e * (self.ast.U[self.ast.unit] / self.ast.U[e_unit])
+        b = float(b * self.ast.U[b_unit]) / self.ast.U[self.ast.unit]
+        e = float(e * self.ast.U[e_unit]) / self.ast.U[self.ast.unit]
 
         return b, e
